@@ -1,5 +1,5 @@
 """C04 - at-most-once delivery: duplicates, replays and retransmissions are dropped."""
-from props import conn_judge as J
+from props import conn_judge as J, conn_model as CM
 
 
 def scenarios(ctx):
@@ -18,4 +18,6 @@ def run(ctx):
     ctx.level = "model_checking"
     ctx.rule = ("events of recorded executions of two real endpoints judged by TLC against Trace_Conn; distinct = recv + build events; "
                 "non-trivial = every recv/build event (each is checked against the full clause set)")
+    CM.c04_models(ctx)
+    CM.finding_replay(ctx, "C04")
     J.run_scenarios(ctx, "C04", scenarios(ctx))
